@@ -27,7 +27,12 @@ Definition run_shooting (oc : ocp) (pq : point Q) :=
   let single := match m_kind (o_method oc) with SS => true | _ => false end in
   let L := lists_of oc pt single in
   let rows := match transcribe_shooting oc pt single with Some r => r | None => [] end in
-  (objective L (o_objective oc), map out_row rows, L_X L, shooting_accepts oc).
+  let N := m_N (o_method oc) in
+  let nodes := map Z.of_nat (seq 0 N) ++ [(-1)%Z] in
+  (objective L (o_objective oc), map out_row rows, L_X L, shooting_accepts oc,
+   (* time read-back: control grid, integrator grid, DT and DT_control at the nodes *)
+   (L_cg L, concat (L_ig L), map (fun k => e_DT (env_control L k)) nodes,
+    map (fun k => e_DTc (env_control L k)) nodes)).
 End Conv.
 
 Definition run_shooting_float := @run_shooting _ FloatOps.
